@@ -399,7 +399,7 @@ fn run_soak(t: &[&str]) -> String {
         let bad = bad.clone();
         let start = start.clone();
         prods.push(thread::spawn(move || {
-            let mut x = seed.wrapping_mul(6364136223846793005).wrapping_add(p as u64 * 1442695040888963407 + 1);
+            let mut x = seed.wrapping_mul(6364136223846793005).wrapping_add((p as u64).wrapping_mul(1442695040888963407).wrapping_add(1));
             let mut mine = vec![];
             start.wait();
             for i in 0..nemit {
@@ -429,7 +429,9 @@ fn run_soak(t: &[&str]) -> String {
         }));
     }
     for h in prods {
-        let _ = h.join();
+        if h.join().is_err() {
+            bad.lock().unwrap().push("a producer thread panicked".to_string());
+        }
     }
     // quiescence: everything acknowledged must come out
     let total = okcount.load(Ordering::Relaxed) as usize;
